@@ -479,6 +479,22 @@ class Interp:
             return ("arr", tuple(S(b, E, "u8") for b in k["str"].encode()))
         return TOP()
 
+    def self_assoc_const(self, fr, name):
+        """value of `Self::NAME` (an array length written with an associated constant) for the function being interpreted"""
+        F = self.F
+        d = F.defs[F.instances[fr["inst"]]["d"]]
+        head = d.get("self_head")
+        if not head:
+            return None
+        for di, dd in enumerate(F.defs):
+            if dd.get("name") == name and dd.get("self_head") == head and str(dd.get("kind", "")).startswith("AssocConst") and dd.get("local") \
+                    and not dd.get("trait"):
+                names = self._impl_generic_names(dd)
+                v = self.const_val(fr, {"ty": "usize", "uneval": di, "args": names})
+                if v[0] == "s" and isinstance(v[1], int):
+                    return v[1]
+        return None
+
     def _impl_generic_names(self, d):
         st = d.get("self_ty") or ""
         names = []
@@ -602,7 +618,7 @@ class Interp:
             else:
                 c = None if to not in INT_BITS else c
             return S(c, v[2], to)
-        if kind.startswith("PointerCoercion(Unsize"):
+        if kind.startswith("PointerCoercion(Unsize") or kind == "Subtype":
             return v
         if kind in ("PtrToPtr", "PointerCoercion(MutToConstPointer, Implicit)") or kind.startswith("PointerCoercion(MutToConst"):
             return v
@@ -611,6 +627,10 @@ class Interp:
         if kind == "Transmute":
             if v[0] == "ref":
                 raise Imprecise("transmute of a pointer")
+            import re as _re
+            ma, mb = _re.match(r"^\[(\w+); .*\]$", rv.get("from", "")), _re.match(r"^\[(\w+); .*\]$", to or "")
+            if v[0] == "arr" and ma and mb and ma.group(1) == mb.group(1):
+                return v          # an array reinterpreted as an array of the same element type (two spellings of one length)
             return TOP(alldeps(v))
         if v[0] == "ref":
             raise Imprecise("cast %s of a pointer" % kind)
@@ -675,6 +695,8 @@ class Interp:
             n = self.eval_const_str(rv["n"], fr["env"])
             if n is None and fr.get("root"):
                 n = self.shape.get(rv["n"])
+            if n is None and str(rv["n"]).startswith("Self::") and fr.get("inst") is not None:
+                n = self.self_assoc_const(fr, str(rv["n"])[6:])
             if n is None or n > 4096:
                 return TOP(alldeps(v))
             return ("arr", (v,) * n)
